@@ -27,7 +27,7 @@ func init() { register(c20{}) }
 func (c20) Meta() core.Meta {
 	return core.Meta{
 		ID: "C20", Level: "exploration",
-		Rule: "case i = f(seed,i): a document from the C01 generator (default options) and a JSON value from the C03/C07 generators, a key that occurs at two depths on one branch when possible, plain/wildcard/indexed paths, sub-keys, key pairs and a new value. Every exported function of j2x, x2j and x2j-wrapper with a core counterpart is called on the same input and compared with the documented composition of core calls: byte equality for XML / compact JSON produced by the same encoder (safe-encoding flag passed through), JSON-value equality where only 'a JSON string' is documented, set equality for path lists, multiset equality for value lists, map equality for decoders; x2j-wrapper.PathsForKey / PathForKeyShortest == Map.PathsForKey / minimal length; ValuesFromKeyPath(m,p,true) == ValuesForPath(p), with false == the same minus attribute entries selected at wildcard steps; ValuesAtKeyPath == the parents of the last key (nil when no parent has it); reader / writer / bulk / file wrappers == the core readers on the same bytes. Non-trivial: the compared result is non-empty; distinct by hash(function, input).",
+		Rule:        "case i = f(seed,i): a document from the C01 generator (default options) and a JSON value from the C03/C07 generators, a key that occurs at two depths on one branch when possible, plain/wildcard/indexed paths, sub-keys, key pairs and a new value. Every exported function of j2x, x2j and x2j-wrapper with a core counterpart is called on the same input and compared with the documented composition of core calls: byte equality for XML / compact JSON produced by the same encoder (safe-encoding flag passed through), JSON-value equality where only 'a JSON string' is documented, set equality for path lists, multiset equality for value lists, map equality for decoders; x2j-wrapper.PathsForKey / PathForKeyShortest == Map.PathsForKey / minimal length; ValuesFromKeyPath(m,p,true) == ValuesForPath(p), with false == the same minus attribute entries selected at wildcard steps; ValuesAtKeyPath == the parents of the last key (nil when no parent has it); reader / writer / bulk / file wrappers == the core readers on the same bytes. Non-trivial: the compared result is non-empty; distinct by hash(function, input).",
 		Assumptions: []string{"x2j-wrapper.ValuesForKey / MapValue / DocValue have their own documented semantics (no core counterpart) and are not compared", "x2j-wrapper treats '-' as the attribute marker regardless of SetAttrPrefix (documented in its package text); default options are used"},
 		Anchors:     []string{"j2x.MapToJson", "j2x.JsonToXml", "j2x.JsonReaderToXml", "j2x.JsonValuesForKeyPath", "j2x.JsonUpdateValsForPath", "j2x.JsonNewJson", "j2x.JsonLeafNodes", "x2j.XmlToJson", "x2j.XmlReaderToJson", "x2j.XmlValuesForPath", "x2j.XmlUpdateValsForPath", "x2j.XmlNewXml", "x2j.XmlLeafNodes", "x2j-wrapper.PathsForKey", "x2j-wrapper.hasKeyPath", "x2j-wrapper.PathForKeyShortest", "x2j-wrapper.ValuesFromKeyPath", "x2j-wrapper.valuesFromKeyPath", "x2j-wrapper.ValuesAtKeyPath", "x2j-wrapper.DocToJson", "x2j-wrapper.DocToMap", "x2j-wrapper.XmlMsgsFromReader", "x2j-wrapper.XmlMsgsFromFile", "x2j-wrapper.ToJson", "x2j-wrapper.Unmarshal"},
 		Floors:      map[string]int64{"comparisons": 100000, "key-at-two-depths-on-a-branch": 300, "wildcard-path-with-attrs": 500, "safe-flag-matters": 300, "nonempty-results": 8000},
@@ -41,7 +41,7 @@ func (c20) Cases(tier string, race bool) int {
 	if tier == "thorough" {
 		return 300000
 	}
-	return 8000
+	return 16000
 }
 
 var c20gen = xt.GenCfg{Names: []string{"a", "b", "c", "k", "x-y"}, Prefixes: []string{"", "", "", "ns"}, Texts: []string{"", "t", "1", "true", "<&>", " pad ", "é", "x y", "1.5"}, MaxKids: 4, MaxAttrs: 2, WideProb: 60}
@@ -124,7 +124,7 @@ func (c20) Case(c *core.Ctx) {
 		default:
 			return []string{"s", "<&>", "t", "1"}[rr.Intn(4)]
 		}
-	}}
+	}}.Fresh()
 	jroot := jv.M{"doc": g.Value(r, 1+r.Intn(4), false)}
 	jb, _ := json.Marshal(jroot)
 	mj, err := mxj.NewMapJson(jb)
